@@ -7,6 +7,7 @@ use crate::fixtures::echo::echo_client::EchoClient;
 use crate::fixtures::echo::echo_server::{Echo, EchoServer};
 use crate::report::{Property, Section, Tier};
 use std::collections::HashMap;
+use std::future::Future;
 use std::pin::Pin;
 use std::sync::atomic::{AtomicBool, Ordering};
 use std::sync::{Arc, Mutex};
@@ -69,6 +70,9 @@ struct Case {
     offer_after: bool,
     /// fire the signal and offer the new connection in the same step
     same_step: bool,
+    /// the signal becomes ready exactly when the listener has yielded the new connection (so the
+    /// serve future sees the accept and the signal in the same poll, whatever select!'s order)
+    signal_on_accept: bool,
     max_age_ms: Option<u64>,
 }
 
@@ -99,7 +103,7 @@ fn body(c: &Case, ch: &Chooser) -> Outcome {
     let rt = vnet::runtime(c.seed);
     let c2 = c.clone();
     let ch2 = ch.clone();
-    let (log, ends, invoked, serve_states, serve_result, late) = rt.block_on(async move {
+    let (log, ends, invoked, serve_states, serve_result, late, open_at_resolution) = rt.block_on(async move {
         let c = c2;
         let ch = ch2;
         let (st, rx) = vnet::connector_state(ConnectMode::Succeed, false, c.chop);
@@ -116,20 +120,48 @@ fn body(c: &Case, ch: &Chooser) -> Outcome {
         let server = EchoServer::new(Gated { gates: gates.clone(), invoked: invoked.clone() });
         let (sig_tx, sig_rx) = tokio::sync::oneshot::channel::<()>();
         let serve_done = Arc::new(AtomicBool::new(false));
+        let open_cell_outer: Arc<Mutex<Option<usize>>> = Arc::new(Mutex::new(None));
         let serve_res: Arc<Mutex<Option<Result<(), String>>>> = Arc::new(Mutex::new(None));
         {
             let (sd, sr) = (serve_done.clone(), serve_res.clone());
+            let st_for_serve = st.clone();
+            let open_cell = open_cell_outer.clone();
             let mut b = Server::builder();
             if let Some(ms) = c.max_age_ms {
                 b = b.max_connection_age(Duration::from_millis(ms));
             }
+            let accept_flag = Arc::new((AtomicBool::new(false), Mutex::new(None::<std::task::Waker>)));
+            let (af1, af2) = (accept_flag.clone(), accept_flag.clone());
+            let initial_conns = c.conns;
+            let on_accept = c.signal_on_accept;
+            let mut yielded = 0usize;
+            use tokio_stream::StreamExt;
+            let incoming = vnet::incoming(rx).map(move |io| {
+                yielded += 1;
+                if on_accept && yielded > initial_conns {
+                    af1.0.store(true, Ordering::SeqCst);
+                    if let Some(w) = af1.1.lock().unwrap().take() {
+                        w.wake();
+                    }
+                }
+                io
+            });
             tokio::spawn(async move {
+                let mut sig_rx = sig_rx;
                 let r = b
                     .add_service(server)
-                    .serve_with_incoming_shutdown(vnet::incoming(rx), async move {
-                        let _ = sig_rx.await;
-                    })
+                    .serve_with_incoming_shutdown(incoming, std::future::poll_fn(move |cx| {
+                        if af2.0.load(Ordering::SeqCst) {
+                            return std::task::Poll::Ready(());
+                        }
+                        *af2.1.lock().unwrap() = Some(cx.waker().clone());
+                        std::pin::Pin::new(&mut sig_rx).poll(cx).map(|_| ())
+                    }))
                     .await;
+                // measured at the very moment the serve future resolves: every pipe end ever
+                // handed to the listener must be gone by now
+                let open = st_for_serve.server_ends.lock().unwrap().iter().filter(|s| !s.dropped.load(Ordering::SeqCst)).count();
+                *open_cell.lock().unwrap() = Some(open);
                 *sr.lock().unwrap() = Some(r.map_err(|e| format!("{e:?}")));
                 sd.store(true, Ordering::SeqCst);
             });
@@ -150,6 +182,9 @@ fn body(c: &Case, ch: &Chooser) -> Outcome {
         let mut handles: Vec<Option<tokio::task::JoinHandle<ClientView>>> = (0..n).map(|_| None).collect();
         let mut signal: Option<tokio::sync::oneshot::Sender<()>> = Some(sig_tx);
         let mut offered = false;
+        let mut sig_keep: Option<tokio::sync::oneshot::Sender<()>> = None;
+        let mut pre_io: Option<hyper_util::rt::TokioIo<vnet::NetIo>> = None;
+        let mut open_at_resolution: Option<usize> = None;
         let mut late_handle: Option<tokio::task::JoinHandle<Option<ClientView>>> = None;
         let mut late_sender = senders.pop().unwrap();
         loop {
@@ -205,8 +240,21 @@ fn body(c: &Case, ch: &Chooser) -> Outcome {
                     }
                 }
                 E::Signal => {
+                    if c.same_step && c.offer_after && !offered {
+                        // the new connection reaches the listener in the very step in which the
+                        // signal fires: hand its server end over first, synchronously
+                        use tower_service::Service;
+                        let mut conn = vnet::connector(st.clone());
+                        if let Ok(io) = conn.call(http::Uri::from_static("http://c13.test:1")).await {
+                            pre_io = Some(io);
+                        }
+                    }
                     if let Some(tx) = signal.take() {
-                        let _ = tx.send(());
+                        if c.signal_on_accept {
+                            sig_keep = Some(tx); // the signal fires by itself when the connection is yielded
+                        } else {
+                            let _ = tx.send(());
+                        }
                     }
                     if c.same_step && c.offer_after {
                         offer_now = true;
@@ -222,8 +270,21 @@ fn body(c: &Case, ch: &Chooser) -> Outcome {
                 if let Some(tx) = late_sender.take() {
                     let _ = tx.send(Ok(vec![100, 1]));
                 }
+                let pre = pre_io.take();
                 late_handle = Some(tokio::spawn(async move {
-                    match Endpoint::from_static("http://c13.test:1").connect_with_connector(vnet::connector(stx)).await {
+                    let connected = match pre {
+                        Some(io) => {
+                            let mut io = Some(io);
+                            Endpoint::from_static("http://c13.test:1")
+                                .connect_with_connector(tower::service_fn(move |_: http::Uri| {
+                                    let io = io.take();
+                                    async move { io.ok_or_else(|| std::io::Error::other("pipe already used")) }
+                                }))
+                                .await
+                        }
+                        None => Endpoint::from_static("http://c13.test:1").connect_with_connector(vnet::connector(stx)).await,
+                    };
+                    match connected {
                         Ok(chn) => {
                             let mut client = EchoClient::new(chn);
                             Some(client_call(&mut client, Shape::Unary, vec![vec![100]], &vec![], false, &chx, |_| {}).await)
@@ -233,9 +294,14 @@ fn body(c: &Case, ch: &Chooser) -> Outcome {
                 }));
             }
             vnet::settle().await;
-            serve_states.push((format!("{ev:?}"), serve_done.load(Ordering::SeqCst)));
+            let done_now = serve_done.load(Ordering::SeqCst);
+            serve_states.push((format!("{ev:?}"), done_now));
+            if done_now && open_at_resolution.is_none() {
+                open_at_resolution = *open_cell_outer.lock().unwrap();
+            }
         }
         // everything scripted has happened: let the system finish
+        drop(sig_keep);
         drop(channels);
         vnet::settle_ms(50).await;
         let mut ends: Vec<CallEnd> = vec![];
@@ -275,10 +341,10 @@ fn body(c: &Case, ch: &Chooser) -> Outcome {
         };
         let inv = invoked.lock().unwrap().clone();
         let sr = serve_res.lock().unwrap().clone();
-        (log, ends, inv, serve_states, sr, late)
+        (log, ends, inv, serve_states, sr, late, open_at_resolution)
     });
     drop(rt);
-    let mut o = Outcome::new(format!("events={log:?} ends={ends:?} invoked={invoked:?} serve={serve_states:?} result={serve_result:?} late={late:?}"));
+    let mut o = Outcome::new(format!("events={log:?} ends={ends:?} invoked={invoked:?} serve={serve_states:?} result={serve_result:?} late={late:?} open_at_resolution={open_at_resolution:?}"));
     let sig_pos = log.iter().position(|e| e == "Signal");
     // non-trivial: the signal landed strictly between a call's start and its last handler step
     o.nontrivial = sig_pos
@@ -330,6 +396,11 @@ fn body(c: &Case, ch: &Chooser) -> Outcome {
     if serve_states.last().map(|(_, d)| *d) != Some(true) {
         o.violate("serve-never-resolved", "all calls finished and all client channels were dropped after the signal, but the serve future did not resolve");
     }
+    if let Some(n) = open_at_resolution {
+        if n > 0 {
+            o.violate("serve-resolved-with-open-connection", format!("the serve future had resolved while {n} connection(s) handed to the listener were still open"));
+        }
+    }
     if let Some(Err(e)) = &serve_result {
         o.violate("serve-error", format!("serve future resolved with an error: {e}"));
     }
@@ -360,19 +431,33 @@ fn cases(tier: Tier) -> Vec<Case> {
     if tier == Tier::Thorough {
         call_sets.push((vec![(Shape::Unary, 0), (Shape::ServerStream, 1), (Shape::Unary, 1)], 2));
     }
+    // no call at all: the only connection is the one arriving together with the signal (and an
+    // idle-connection variant)
+    for conns in [0usize, 1] {
+        for seed in 0..8 {
+            out.push(Case { calls: vec![], conns, chop: 0, seed, offer_after: true, same_step: true, signal_on_accept: false, max_age_ms: None });
+        }
+        out.push(Case { calls: vec![], conns, chop: 0, seed: 0, offer_after: true, same_step: false, signal_on_accept: false, max_age_ms: None });
+        for chop in [0usize, 2] {
+            out.push(Case { calls: vec![], conns, chop, seed: 0, offer_after: true, same_step: true, signal_on_accept: true, max_age_ms: None });
+        }
+    }
+    for s in [Shape::Unary, Shape::ServerStream] {
+        out.push(Case { calls: vec![(s, 0)], conns: 1, chop: 0, seed: 0, offer_after: true, same_step: true, signal_on_accept: true, max_age_ms: None });
+    }
     for (i, (calls, conns)) in call_sets.iter().enumerate() {
         let chops: Vec<usize> = if tier == Tier::Thorough { vec![0, 2, 3] } else { vec![[0, 2, 3][i % 3]] };
         for chop in chops {
-            out.push(Case { calls: calls.clone(), conns: *conns, chop, seed: 0, offer_after: true, same_step: false, max_age_ms: None });
+            out.push(Case { calls: calls.clone(), conns: *conns, chop, seed: 0, offer_after: true, same_step: false, signal_on_accept: false, max_age_ms: None });
             if calls.len() == 1 || tier == Tier::Thorough {
                 for seed in 0..4 {
-                    out.push(Case { calls: calls.clone(), conns: *conns, chop, seed, offer_after: true, same_step: true, max_age_ms: None });
+                    out.push(Case { calls: calls.clone(), conns: *conns, chop, seed, offer_after: true, same_step: true, signal_on_accept: false, max_age_ms: None });
                 }
             }
         }
         if tier == Tier::Thorough && calls.len() <= 2 {
             for age in [2u64, 6] {
-                out.push(Case { calls: calls.clone(), conns: *conns, chop: 0, seed: 1, offer_after: false, same_step: false, max_age_ms: Some(age) });
+                out.push(Case { calls: calls.clone(), conns: *conns, chop: 0, seed: 1, offer_after: false, same_step: false, signal_on_accept: false, max_age_ms: Some(age) });
             }
         }
     }
@@ -385,7 +470,7 @@ pub fn property(tier: Tier) -> Property {
         Config { hang_secs: 60, ..Default::default() },
         "cases: 1..2 (thorough 3) concurrent calls (unary: 1 gated handler step; server-streaming: message, message, end = 3 gated steps) on 1..2 connections x pipe fragmentation pattern x {new connection offered after the signal has settled | in the same step as the signal under 4 RNG seeds} (thorough: max_connection_age elapsing before/after the signal); environment: the explorer enumerates EVERY interleaving of {start call k, release next handler step of call k, fire the shutdown signal, offer a new connection} consistent with causality (choices cost nothing), each event followed by quiescence in virtual time, on the real Server::serve_with_incoming_shutdown over in-memory pipes; RefShutdown: every call whose handler was invoked ends with its full outcome; no call hangs; the serve future is unresolved while an accepted call has steps outstanding (and before any signal), resolves after the last one finishes and the clients are gone, never with Err; a connection offered after signal+quiescence never reaches a handler and does not hang once serving ended. Non-trivial = the signal landed strictly between a call's start and its last handler step.",
         cases(tier),
-        |c: &Case| format!("calls={:?} conns={} chop={} seed={} offer_after={} same_step={} max_age={:?}", c.calls, c.conns, c.chop, c.seed, c.offer_after, c.same_step, c.max_age_ms),
+        |c: &Case| format!("calls={:?} conns={} chop={} seed={} offer_after={} same_step={} signal_on_accept={} max_age={:?}", c.calls, c.conns, c.chop, c.seed, c.offer_after, c.same_step, c.signal_on_accept, c.max_age_ms),
         body,
     )
     .mins(100, 10, 20);
